@@ -276,6 +276,7 @@ impl Report {
             }
         }
         VIOLATION_PRINTED.store(true, Ordering::Relaxed);
+        *PENDING.lock().unwrap() = None;
         println!("VIOLATION property={} replay={}", self.prop, replay);
         println!("  signature: {}", v.sig);
         for l in v.detail.lines().take(40) {
@@ -368,6 +369,8 @@ impl Report {
             failure_persistence: None,
             rng_seed: RngSeed::Fixed(seed),
             max_shrink_iters: 4000,
+            // minimisation is bounded in wall time as well (it only affects how small the replay file is, never the verdict)
+            max_shrink_time: shrink_ms(self.tier),
             ..Config::default()
         };
         let mut runner = TestRunner::new(cfg);
@@ -401,6 +404,9 @@ impl Report {
                 None => Ok(()),
                 Some(v) => {
                     failed.store(true, Ordering::Relaxed);
+                    // keep the unshrunk input: if minimisation stalls, the watchdog reports this one
+                    let p = self.write_replay(stage, &inp, &v);
+                    *PENDING.lock().unwrap() = Some((self.prop.clone(), p, v.sig.clone()));
                     Err(TestCaseError::fail(v.sig))
                 }
             }
@@ -418,9 +424,10 @@ impl Report {
                     };
                     // second pass: structural simplification with the same signature
                     let mut budget = 600usize;
+                    let deadline = Instant::now() + std::time::Duration::from_millis(shrink_ms(self.tier) as u64 / 2);
                     'outer: loop {
                         for cand in stage.simplify(&inp) {
-                            if budget == 0 {
+                            if budget == 0 || Instant::now() > deadline {
                                 break 'outer;
                             }
                             budget -= 1;
@@ -463,15 +470,48 @@ impl Report {
         for (k, v) in env {
             cmd.env(k, v);
         }
-        let out = match cmd.output() {
-            Ok(o) => o,
+        cmd.stdout(std::process::Stdio::piped()).stderr(std::process::Stdio::null());
+        let mut ch = match cmd.spawn() {
+            Ok(c) => c,
             Err(e) => {
                 self.inconclusive(format!("cannot start sub-run {label}: {e}"));
                 return;
             }
         };
-        let text = String::from_utf8_lossy(&out.stdout).to_string();
-        let code = out.status.code().unwrap_or(2);
+        let mut so = ch.stdout.take().unwrap();
+        let reader = std::thread::spawn(move || {
+            let mut s = String::new();
+            let _ = std::io::Read::read_to_string(&mut so, &mut s);
+            s
+        });
+        // the sub-run has a watchdog of its own; here progress = its CPU time advancing, under an overall cap
+        let cap = std::time::Duration::from_secs(if self.tier == Tier::Thorough { 7200 } else { 1500 });
+        let t0 = Instant::now();
+        let mut last_cpu = 0u64;
+        let status = loop {
+            match ch.try_wait() {
+                Ok(Some(st)) => break Some(st),
+                Ok(None) => {}
+                Err(_) => break None,
+            }
+            if t0.elapsed() > cap {
+                let _ = ch.kill();
+                let _ = ch.wait();
+                break None;
+            }
+            if let Some((cpu, _)) = crate::child::cpu_ticks(ch.id()) {
+                if cpu != last_cpu {
+                    last_cpu = cpu;
+                    PROGRESS.fetch_add(1, Ordering::Relaxed);
+                }
+            }
+            std::thread::sleep(std::time::Duration::from_millis(300));
+        };
+        let text = reader.join().unwrap_or_default();
+        let code = match status {
+            Some(st) => st.code().unwrap_or(2),
+            None => 2,
+        };
         let mut inner = self.inner.lock().unwrap();
         for l in text.lines() {
             if l.starts_with("VIOLATION ") {
@@ -586,6 +626,19 @@ fn first_hard(rep: &Report, out: Outcome) -> Option<Violation> {
 
 pub static PROGRESS: std::sync::atomic::AtomicU64 = std::sync::atomic::AtomicU64::new(0);
 pub static VIOLATION_PRINTED: AtomicBool = AtomicBool::new(false);
+/// (property, replay path, signature) of a failure that is still being minimised
+pub static PENDING: Mutex<Option<(String, String, String)>> = Mutex::new(None);
+
+/// wall-clock bound for proptest's shrinking of one failure, in ms; sub-runs (every case is expensive there) get less
+pub fn shrink_ms(tier: Tier) -> u32 {
+    if std::env::var("VERIF_SUBRUN").is_ok() {
+        30_000
+    } else if tier == Tier::Thorough {
+        300_000
+    } else {
+        90_000
+    }
+}
 
 /// Hang watchdog: if no case completes for `limit`, the run is inconclusive (exit 2), never a violation.
 pub fn spawn_watchdog(limit: std::time::Duration) {
@@ -599,6 +652,12 @@ pub fn spawn_watchdog(limit: std::time::Duration) {
                 last = cur;
                 since = Instant::now();
             } else if since.elapsed() > limit {
+                if let Some((prop, replay, sig)) = PENDING.lock().ok().and_then(|g| g.clone()) {
+                    println!("VIOLATION property={prop} replay={replay}");
+                    println!("  signature: {sig}");
+                    println!("  | (minimisation stalled for {:?}; this is the input as generated)", limit);
+                    std::process::exit(1);
+                }
                 if VIOLATION_PRINTED.load(Ordering::Relaxed) {
                     println!("watchdog: no progress for {:?} while minimising an already reported violation; exiting with the violation", limit);
                     std::process::exit(1);
